@@ -56,7 +56,7 @@ func storeKindOf(w *World) (*storeKind, error) {
 		}
 		creates, writesTo, regs, dels, takesMt, takesIdx := 0, 0, 0, 0, false, false
 		for i := 0; i < fn.Signature.Params().Len(); i++ {
-			ts := types.TypeString(fn.Signature.Params().At(i).Type(), qual)
+			ts := tstr(fn.Signature.Params().At(i).Type(), qual)
 			if ts == "*memtable" {
 				takesMt = true
 			}
